@@ -15,6 +15,8 @@ mod runner;
 mod gen;
 mod scen_body;
 mod scen_head;
+mod reqgen;
+mod scen_req;
 mod scen_send;
 
 use runner::Prop;
@@ -133,6 +135,34 @@ fn props() -> Vec<Prop> {
             assumptions: &[A_COMMON, "N = 0 never enters the body state (C06 decides that)"],
             cells_total: 0,
             cells_what: "",
+            exhaustive_note: "",
+        },
+        Prop {
+            id: "C02",
+            scenario: "head",
+            run: scen_req::c02,
+            quick: 80_000,
+            thorough: 3_000_000,
+            subs: &["heads"],
+            level: "exploration",
+            rule: "generated absolute-URI requests C17 accepts (9 methods, 1.0/1.1, 0..12 original and 0..6 caller-added headers with repeated names and obs-text values, explicit or derived Host, CL / chunked / defaulted framing in original or added headers, despite-method, Expect) on Flow and both Call constructors; the one-shot head is strictly parsed and compared with the reference head, then a second instance is written under a drawn sequence of output sizes biased to len(next line)+{-1,0,+1}, with queries and extra writes after completion, and the flow is continued into the body state and a body is sent; non-trivial = >=2 write calls; distinct = abstract trace (fit class per call, line index, result)",
+            assumptions: &[A_COMMON, "caller-added headers <= 60 (documented capacity 64 incl. two synthesised)", "a synthesised Host may carry host or host:port; the position of synthesised lines is not constrained"],
+            cells_total: 0,
+            cells_what: "",
+            exhaustive_note: "",
+        },
+        Prop {
+            id: "C17",
+            scenario: "head-validity",
+            run: scen_req::c17,
+            quick: 80_000,
+            thorough: 2_000_000,
+            subs: &["classes"],
+            level: "exploration",
+            rule: "schedule-free: validity-biased generator (a valid request plus 0..2 mutations: version 0.9/2/3, 1.1-only method on 1.0, second Host, Content-Length variants incl. negative / non-numeric / non-UTF-8 / duplicate, Transfer-Encoding variants, despite-method, API constructor) classified by an independent reference; 4 write attempts with different buffers each; every run is non-trivial; distinct = (api, class, attempt results)",
+            assumptions: &[A_COMMON, "DontCare (not decided by the statement): non-textual Host, Transfer-Encoding other than chunked, Content-Length '+5' or beyond u64, without-body constructor with a framing header on a body method"],
+            cells_total: scen_req::C17_CELLS,
+            cells_what: "(api: flow / with_body / without_body) x (validity class reached)",
             exhaustive_note: "",
         },
     ]
